@@ -309,3 +309,96 @@ func VerifC02JournalBlocks() {
 	verifC01CheckImage(w, cur, "image after the commit")
 	rt.Reach("c02.blocks")
 }
+
+// verifSpecChecksumSkip is the from-scratch checksum with the lock page left out.
+func verifSpecChecksumSkip(img [][]byte, lock uint32) ltx.Checksum {
+	var x ltx.Checksum
+	for i, p := range img {
+		if uint32(i+1) == lock {
+			continue
+		}
+		x ^= ltx.ChecksumPage(uint32(i+1), p)
+	}
+	return ltx.ChecksumFlag | x
+}
+
+// VerifC02LockPage: the SQLite lock page is never captured and never counted.
+// The lock page number is generalised to a small page by stubbing ltx.LockPgno
+// (the real one is page 2 097 153 at 512 bytes), for both journal and WAL commits.
+func VerifC02LockPage() {
+	ctx := context.Background()
+	lock := uint32(2 + rt.Choose("lock.page", 2))
+	rt.Stub("github.com/superfly/ltx.LockPgno", func(uint32) uint32 { return lock })
+	wal := rt.Choose("wal.mode", 2) == 1
+	w := verifNewStore(true)
+	n0 := 3
+	img0 := verifImage("img0", n0, wal)
+	w.verifOpenDB(img0, 41)
+	db := w.db
+	pos0 := db.Pos()
+	rt.Check(pos0.PostApplyChecksum == verifSpecChecksumSkip(img0, lock), "C04: the lock page is not part of the checksum after Open")
+	cur := [][]byte{img0[0], img0[1], img0[2]}
+	commit := n0 + rt.Choose("grow", 2)
+	p1 := rt.Bytes("new", verifP)
+	verifHeaderPage(p1, uint32(commit), wal)
+	writes := map[int][]byte{1: p1, int(lock): rt.Bytes("lockpage", verifP)}
+	if commit > n0 {
+		writes[commit] = rt.Bytes("grown", verifP)
+		cur = append(cur, nil)
+	}
+	if !wal {
+		jf, err := db.CreateJournal()
+		rt.Check(err == nil, "CreateJournal")
+		rt.Check(db.WriteJournalAt(ctx, jf, verifJournalHeader(0, 1, uint32(n0)), 0, 1) == nil, "journal header")
+		dbf, _ := db.OpenDatabase(ctx)
+		for p := 1; p <= commit; p++ {
+			if d, ok := writes[p]; ok {
+				rt.Check(db.WriteDatabaseAt(ctx, dbf, d, int64(p-1)*verifP, 1) == nil, "page write")
+				cur[p-1] = d
+			}
+		}
+		rt.Check(db.RemoveJournal(ctx) == nil, "commit")
+	} else {
+		m := &verifWALModel{salt1: rt.U32("s1"), salt2: rt.U32("s2"), overlay: map[uint32][]byte{}, pageN: uint32(n0)}
+		m.verifStartWAL(ctx, w, true)
+		ok, _ := db.TryLocks(ctx, 1, []LockType{LockTypeWrite})
+		rt.Check(ok, "WRITE lock")
+		off, c1, c2 := m.capOff, m.c1, m.c2
+		m.txSize = uint32(commit)
+		var pages []int
+		for p := 1; p <= commit; p++ {
+			if _, ok := writes[p]; ok {
+				pages = append(pages, p)
+			}
+		}
+		for i, p := range pages {
+			cm := uint32(0)
+			if i == len(pages)-1 {
+				cm = uint32(commit)
+			}
+			var d []byte
+			c1, c2, d = m.verifWriteFrame(ctx, db, off, uint32(p), cm, c1, c2)
+			cur[p-1] = d
+			off += verifFrameSize
+		}
+		rt.Check(db.Unlock(ctx, 1, []LockType{LockTypeWrite}) == nil, "release")
+	}
+	rt.Check(len(w.exits) == 0, "no fatal exit")
+	pos1 := db.Pos()
+	rt.Check(pos1.TXID == 42, "position advances by one")
+	x, derr := verifDecodeLTX(db.LTXPath(42, 42))
+	rt.Check(derr == nil, "transaction file verifies")
+	for _, p := range x.pgnos {
+		rt.Check(p != lock, "no page on the lock page in a transaction file")
+	}
+	want := 0
+	for p := range writes {
+		if uint32(p) != lock {
+			want++
+		}
+	}
+	rt.Check(len(x.pgnos) == want, "every other written page is captured")
+	spec := verifSpecChecksumSkip(cur, lock)
+	rt.Check(pos1.PostApplyChecksum == spec && x.trailer.PostApplyChecksum == spec, "C04: checksum = XOR over all pages except the lock page")
+	rt.Reach("c02.lockpage")
+}
